@@ -839,6 +839,14 @@ def main():
         write_if_changed(os.path.join(GEN, "WalkGen.lean"),
                          "import CatiiModel.Cube\n-- translation FAILED: %s\n" % str(e).replace("\n", " ")[:300])
         status = 3
+    try:
+        import translate_eq
+        write_if_changed(os.path.join(GEN, "EqGen.lean"), translate_eq.generate(rd("iindexes.py")))
+    except (translate_eq.Unsupported, SyntaxError, KeyError, IndexError, AttributeError, StopIteration) as e:
+        print("translate: iindex.__eq__/__ne__ outside the translatable subset: %s" % e, file=sys.stderr)
+        write_if_changed(os.path.join(GEN, "EqGen.lean"),
+                         "import CatiiModel.IIndex\n-- translation FAILED: %s\n" % str(e).replace("\n", " ")[:300])
+        status = 3
     return status
 
 
